@@ -228,6 +228,7 @@ func runC06(tier string) int {
 	massLongLists(r, "C06", tier)
 	// prepared pairs of contents with equal 64-bit digests
 	hashCollisionFiles(r, "C06")
+	c06ConditionChains(r)
 	massTextsFile(r, "C06", tier)
 	completed := c06Enumerate(r, maxSlots, rotations, func(data []datum, dist []int, rot, clash int) { c06Eval(r, data, dist, rot, clash) })
 	if completed < maxSlots {
@@ -239,7 +240,7 @@ func runC06(tier string) int {
 	r.Assume("names are <owner>_Text_<n> / <owner>_Movement_<n>, n counting the owner's new contents in source order of first appearance; content of a moves() is its written, expanded step list",
 		"identical content = identical text after terminator and format() processing and identical string type")
 	return r.Finish(r.Get("evaluations"), r.Get("nontrivial"),
-		"every file with N inline arguments distributed over 3 owners (two scripts and an inline map script, <= 3 each; in odd rotations the map script's first argument sits in a table entry written before the plain inline script) x every assignment of 25 datum kinds (contents ending in terminator characters, plain / already-terminated / formatted / other text, ascii, braille and custom types incl. typed texts whose final literal equals a plain one, one literal under six format() parameter sets of which two give the same result, 9 moves() spellings incl. lists that differ only in the length of their last run or whose run-length spelling collides with another step name) x context rotations over 13 contexts (statement, if, while, switch case, AutoVar condition, selected poryswitch case, '_' case after an unselected one, do-while condition, AutoVar leaf in a parenthesised / negated group followed by an operator, elif condition, AutoVar switch operand, second of two inline data in one command) x {no user name, a user text, a user movement named like a generated label of the first script or of the inline map script, before or after the scripts (rotating), a user text / movement whose name is near a generated label without being one (zero-padded, other case, hex)}, every file defining constants named like the text contents and movement steps and holding explicit text / movement statements (local and exported) with the very contents of its inline arguments; plus long files with K pairwise different inline arguments for every K up to the bound in the coverage (5 text/movement patterns x 3 owner splits x 2 context rotations); plus one script with a moves() list of 41 steps for every 2-character (thorough: and 3-character) ending of its last step name over [a-z0-9_], each of which must get a block of its own; plus prepared pairs of different strings with equal digests under FNV-1 / FNV-1a 64 and small-base polynomial hashes as inline texts and steps of one script; plus one script with 200,000 (thorough 600,000) different inline texts; non-trivial = some content is shared between two arguments")
+		"every file with N inline arguments distributed over 3 owners (two scripts and an inline map script, <= 3 each; in odd rotations the map script's first argument sits in a table entry written before the plain inline script) x every assignment of 25 datum kinds (contents ending in terminator characters, plain / already-terminated / formatted / other text, ascii, braille and custom types incl. typed texts whose final literal equals a plain one, one literal under six format() parameter sets of which two give the same result, 9 moves() spellings incl. lists that differ only in the length of their last run or whose run-length spelling collides with another step name) x context rotations over 13 contexts (statement, if, while, switch case, AutoVar condition, selected poryswitch case, '_' case after an unselected one, do-while condition, AutoVar leaf in a parenthesised / negated group followed by an operator, elif condition, AutoVar switch operand, second of two inline data in one command) x {no user name, a user text, a user movement named like a generated label of the first script or of the inline map script, before or after the scripts (rotating), a user text / movement whose name is near a generated label without being one (zero-padded, other case, hex)}, every file defining constants named like the text contents and movement steps and holding explicit text / movement statements (local and exported) with the very contents of its inline arguments; plus long files with K pairwise different inline arguments for every K up to the bound in the coverage (5 text/movement patterns x 3 owner splits x 2 context rotations); plus one script with a moves() list of 41 steps for every 2-character (thorough: and 3-character) ending of its last step name over [a-z0-9_], each of which must get a block of its own; plus prepared pairs of different strings with equal digests under FNV-1 / FNV-1a 64 and small-base polynomial hashes as inline texts and steps of one script; plus conditions of three operands (flag tests and AutoVar commands with an inline text or moves()) under every operator pair and grouping in 4 positions: labels numbered left to right; plus one script with 200,000 (thorough 600,000) different inline texts; non-trivial = some content is shared between two arguments")
 }
 
 func c06Eval(r *harness.Run, data []datum, dist []int, rot, clash int) {
@@ -602,5 +603,84 @@ func massTextsFile(r *harness.Run, id, tier string) {
 	}
 	if k != n || bad > 0 {
 		r.Report(harness.Violation{Sig: id + ":mass-texts:label-differs", Summary: fmt.Sprintf("script with %d different inline texts: %d commands found, %d do not refer to a label of their own text, e.g. %s", n, k, bad, first), Replay: map[string]interface{}{"texts": n, "generator": "massTextsFile", "first": first}})
+	}
+}
+
+// c06ConditionChains: one condition of three operands - each a flag test, an AutoVar command with an inline text, or an
+// AutoVar command with a moves() list - joined by && / || in every combination, plain and with either pair in
+// parentheses, as the condition of an if, an elif, a while and a do...while, followed by a command with one more text and
+// list: the generated labels are numbered in order of first appearance, left to right.
+func c06ConditionChains(r *harness.Run) {
+	cc := parser.CommandConfig{AutoVarCommands: map[string]parser.AutoVarCommand{"q1": {VarName: "VAR_RESULT"}, "q2": {VarName: "VAR_RESULT"}, "q3": {VarName: "VAR_RESULT"}}}
+	ops := []string{"&&", "||"}
+	done := r.Parallel(27*4*3*4, func(w int, idx uint64) {
+		kinds := []int{int(idx % 3), int(idx / 3 % 3), int(idx / 9 % 3)}
+		x := idx / 27
+		o1, o2 := ops[x%2], ops[x/2%2]
+		x /= 4
+		paren, pos := int(x%3), int(x/3)
+		var operands, wantLines []string
+		nText, nMov := 0, 0
+		for i, k := range kinds {
+			switch k {
+			case 0:
+				operands = append(operands, fmt.Sprintf("flag(F%d)", i))
+			case 1:
+				operands = append(operands, fmt.Sprintf("q%d(\"chain text %d\")", i+1, i))
+				wantLines = append(wantLines, fmt.Sprintf("\tq%d S_Text_%d", i+1, nText))
+				nText++
+			default:
+				operands = append(operands, fmt.Sprintf("q%d(moves(cs%d up))", i+1, i))
+				wantLines = append(wantLines, fmt.Sprintf("\tq%d S_Movement_%d", i+1, nMov))
+				nMov++
+			}
+		}
+		var cond string
+		switch paren {
+		case 0:
+			cond = operands[0] + " " + o1 + " " + operands[1] + " " + o2 + " " + operands[2]
+		case 1:
+			cond = "(" + operands[0] + " " + o1 + " " + operands[1] + ") " + o2 + " " + operands[2]
+		default:
+			cond = operands[0] + " " + o1 + " (" + operands[1] + " " + o2 + " " + operands[2] + ")"
+		}
+		tail := "\tlast(\"tail text\", moves(tail up))\n"
+		wantLines = append(wantLines, fmt.Sprintf("\tlast S_Text_%d, S_Movement_%d", nText, nMov))
+		var src string
+		switch pos {
+		case 0:
+			src = "script S {\n\tif (" + cond + ") {\n\t\tx\n\t}\n" + tail + "}\n"
+		case 1:
+			src = "script S {\n\tif (flag(G)) {\n\t\ty\n\t} elif (" + cond + ") {\n\t\tx\n\t}\n" + tail + "}\n"
+		case 2:
+			src = "script S {\n\twhile (" + cond + ") {\n\t\tx\n\t}\n" + tail + "}\n"
+		default:
+			src = "script S {\n\tdo {\n\t\tx\n\t} while (" + cond + ")\n" + tail + "}\n"
+		}
+		for _, opt := range []bool{true, false} {
+			res := comp.Compile(src, comp.Opts{Optimize: opt, Cmd: cc})
+			r.Add("evaluations", 1)
+			r.Add("condition_chain_files", 1)
+			if nText+nMov >= 2 {
+				r.Add("nontrivial", 1)
+			}
+			problem := ""
+			if res.Err != nil || res.Panic != "" {
+				problem = fmt.Sprintf("rejected: %v %s", res.Err, firstLine(res.Panic))
+			} else {
+				for _, wl := range wantLines {
+					if !strings.Contains(res.Out, wl+"\n") {
+						problem = fmt.Sprintf("no line %q in the output", wl)
+						break
+					}
+				}
+			}
+			if problem != "" {
+				r.Report(harness.Violation{Sig: "C06:condition-chain", Summary: fmt.Sprintf("condition %q (optimize=%v): %s\n  source: %q", cond, opt, problem, src), Replay: map[string]interface{}{"source": src, "optimize": opt, "want_lines": wantLines, "output": res.Out}})
+			}
+		}
+	})
+	if !done {
+		r.NotExhaustive("condition chains not completed")
 	}
 }
